@@ -348,6 +348,10 @@ class Interp:
         return self.raw_native(fn, args, kwargs, node)
 
     def raw_native(self, fn, args, kwargs, node=None):
+        if any(isinstance(x, str) and x.startswith("/vfs/") for x in list(args) + list(kwargs.values())) and getattr(fn, "__module__", None) in ("posix", "nt", "os", "shutil", "genericpath"):
+            # a path of the ghost file system handed to a real OS function: the real call would answer for the real
+            # disk (FileNotFoundError), not for the modelled one
+            raise Unsupported(f"no model for {getattr(fn, '__module__', '')}.{getattr(fn, '__qualname__', fn)} on the ghost file system")
         if not ops.all_concrete(list(args) + list(kwargs.values())):
             raise Unsupported(
                 f"no model for {getattr(fn, '__module__', '')}.{getattr(fn, '__qualname__', fn)} with symbolic arguments"
